@@ -89,7 +89,7 @@ def run(tier, seed):
     chk = core.Check("C14", "exploration", tier, seed)
     rng = chk.rng("gen")
     vrng = chk.rng("variants")
-    n_gram = {"quick": 24, "thorough": 250}[tier]
+    n_gram = {"quick": 36, "thorough": 250}[tier]
     nvar = {"quick": 2, "thorough": 4}[tier]
     gk = dict(fallible=0.35, sugar=0.12, nnt=(2, 5), modes=("user", "user", "user", "unit", "pick", "single"))
     from .. import probes
